@@ -155,9 +155,56 @@ fn systematic_item(i: u64, acc: &mut Acc) {
     }
 }
 
+/// Every coded-block pattern (64) x {INTRA, INTRA+Q} x three stream forms: one macroblock per
+/// pattern in a picture, so every MCBPC-I and CBPY codeword is exercised with its blocks present
+/// or absent exactly as signalled.
+fn cbp_suite() -> SuiteReport {
+    simple_suite("all_coded_block_patterns", true, |acc| {
+        for (mode, version) in [(Mode::Sorenson, 0u8), (Mode::Sorenson, 1), (Mode::Standard, 0)] {
+            for with_q in [false, true] {
+                // 64 patterns -> 64 macroblocks: 128x128 in Sorenson mode, CIF's first 64 of 396 otherwise
+                let size = if mode == Mode::Sorenson { Size::Custom8(128, 128) } else { Size::Cif };
+                let mut hdr = match mode {
+                    Mode::Sorenson => Header::sorenson(version, PicType::I, size, 7),
+                    Mode::Standard => Header::standard(PicType::I, size, 7),
+                };
+                hdr.tr = 64 + with_q as u8;
+                let (mbw, mbh) = hdr.mb_dims().unwrap();
+                let mut mbs = Vec::new();
+                for n in 0..mbw * mbh {
+                    let pattern = n % 64;
+                    let mut mb = Mb::new(if with_q { MbKind::IntraQ } else { MbKind::Intra });
+                    mb.dquant = [1i8, -1, 2, -2][n % 4];
+                    for b in 0..6 {
+                        mb.blocks[b].dc = 30 + ((n * 7 + b * 29) % 190) as u8;
+                        if mb.blocks[b].dc == 128 {
+                            mb.blocks[b].dc = 126;
+                        }
+                        if (pattern >> b) & 1 == 1 {
+                            mb.blocks[b].events = vec![Event { run: ((b + n) % 20) as u8, level: 3 - (n as i16 % 7), force_escape: false, wide: false }];
+                            if mb.blocks[b].events[0].level == 0 {
+                                mb.blocks[b].events[0].level = 5;
+                            }
+                        }
+                    }
+                    mbs.push(mb);
+                }
+                let pic = Pic { hdr, mbs, trailing_zero_bits: 0 };
+                acc.count_n(64, 64);
+                if let Err(m) = check_intra(&pic) {
+                    acc.fail(json!({"kind":"params","suite":"cbp","mode":format!("{:?}",mode),"version":version,"with_q":with_q}), format!("coded-block-pattern sweep ({:?} v{}, {}): {}", mode, version, if with_q { "INTRA+Q" } else { "INTRA" }, m));
+                    return;
+                }
+            }
+        }
+        acc.sample(|| json!({"patterns": "all 64 (CBPC x CBPY)", "macroblock_types": ["INTRA", "INTRA+Q"], "forms": 3}));
+    })
+}
+
 pub fn run(ctx: &Ctx) -> i32 {
     let cfg = ctx.tier.pick(PicCfg::quick(), PicCfg::thorough());
     let mut reports = vec![super::regression_suite(ctx)];
+    reports.push(cbp_suite());
     reports.push(exhaustive_suite(ctx, "zigzag_index_sweep", 63 * 3 * 3, &systematic_item));
     let cases = ctx.tier.pick(60_000u64, 1_000_000u64);
     reports.push(tape_suite(ctx, "random_intra_pictures", cases, 4096, &move |g| intra_case(g, &cfg)));
@@ -204,6 +251,10 @@ pub fn replay(suite: &str, case: &Value) -> Option<Verdict> {
             let cfg = if case["tier"].as_str() == Some("thorough") { PicCfg::thorough() } else { PicCfg::quick() };
             Some(intra_case(&mut Gen::new(&tape), &cfg))
         }
+        "all_coded_block_patterns" => Some(match cbp_suite().failure {
+            Some(f) => Verdict::fail(f.msg),
+            None => Verdict::pass(true, 0),
+        }),
         "zigzag_index_sweep" => {
             let mut acc = Acc::default();
             systematic_item(case["item"].as_u64()?, &mut acc);
